@@ -782,7 +782,8 @@ func (f *fixture) execute(c Case) vkit.Outcome {
 					want = "200"
 					sig = "authenticate endpoint: gate accepts a valid token, handler answers 400"
 				} else {
-					sig = "authenticate endpoint: gate accepts a token that must be rejected (" + strings.SplitN(reason, ":", 2)[0] + ")"
+					// the same decision of the same gate as a 200 from the probe route
+					sig = "router accepts a token that must be rejected: " + strings.SplitN(reason, ":", 2)[0]
 				}
 				fail(sig, fmt.Sprintf("step #%d: %s; %s", si, obs, state), want)
 			} else {
@@ -982,9 +983,14 @@ func (f *fixture) execute(c Case) vkit.Outcome {
 				d = mt.expiry + op.Adv.Delta - now()
 			}
 			before := now()
+			held := caches.Size(caches.TokenCache) + caches.Size(caches.BlacklistCache)
 			if d > 0 {
 				time.Sleep(time.Duration(d))
 				synctest.Wait() // let sweepers that woke at this instant finish
+			}
+			if n := caches.Size(caches.TokenCache) + caches.Size(caches.BlacklistCache); n < held {
+				// evidence that the sweepers run on the bubble's clock
+				labels["cache entries swept on virtual time during a sleep"] = true
 			}
 			note("#%d sleep %v", si, time.Duration(d))
 			for _, o := range toks {
@@ -1117,6 +1123,6 @@ func TestC21(t *testing.T) {
 		Oracle:   oracle,
 		Fixed:    fixedCases,
 		Quick:    60,
-		Thorough: 1250,
+		Thorough: 800,
 	})
 }
